@@ -142,7 +142,8 @@ pub fn gen_line(r: &mut Rng, dom: TextDomain) -> String {
 }
 
 pub fn gen_opts(r: &mut Rng, d: OptDomain, text: &str, small: bool) -> OptSpec {
-    let dw = textwrap::core::display_width(text);
+    // generators never call the library under test (a panicking library must not take the generator down)
+    let dw = crate::oracle::width::ref_width(text);
     let w = if small { opts::small_width(r, text.len(), dw) } else { opts::width(r, text.len(), dw) };
     opts::options(r, d, w)
 }
